@@ -72,7 +72,20 @@ fn managed_paths_for_plan(
         .as_ref()
         .map(load_managed_paths_from_snapshot)
         .transpose()?
-        .map(|m| filter_managed(m, target_filter)))
+        .map(|m| filter_managed(retain_under_roots(m, roots), target_filter)))
+}
+
+/// Snapshots are shared by every project and configuration that uses this agentpack home, so the
+/// snapshot fallback must only consider files under the target roots of the current run.
+pub(crate) fn retain_under_roots(managed: ManagedPaths, roots: &[TargetRoot]) -> ManagedPaths {
+    managed
+        .into_iter()
+        .filter(|tp| {
+            roots
+                .iter()
+                .any(|r| r.target == tp.target && tp.path.starts_with(&r.root))
+        })
+        .collect()
 }
 
 fn filter_managed(managed: ManagedPaths, target_filter: &str) -> ManagedPaths {
